@@ -17,10 +17,16 @@
 (*          tests  : sequence (= declaration order) of                    *)
 (*                   [mod, name, out \in {"accept","reject"},             *)
 (*                    call : <<>> (none) or the name called as `name()`   *)
-(*                           inside the test body],                       *)
+(*                           inside the test body,                        *)
+(*                    body : the statement form the block computes its    *)
+(*                           verdict with (see Bodies)],                  *)
 (*          funcs  : sequence of [mod, name, sig \in {"unit","param",     *)
 (*                   "ret"}]       fn n() / fn n(x: i32) / fn n() -> i32  *)
-(*          broken : "none" | "syntax" | "type"  (an unrelated error) ]   *)
+(*          broken : "none" | "syntax" | "type"  (an unrelated error),    *)
+(*          fnpos  : "first" | "last" | "mixed": functions and helper     *)
+(*                   declarations are written before / after / between    *)
+(*                   the test blocks of a file.  Nothing below depends on *)
+(*                   it: the position of a test block is irrelevant ]     *)
 (*                                                                         *)
 (* The body of test i reports mark i, the body of function j mark 100+j.  *)
 (*                                                                         *)
@@ -81,8 +87,24 @@ FIdx  == 1..Len(Funcs)
 TestMark(i) == i
 FnMark(j)   == 100 + j
 
+(* Statement forms of test bodies.  Every valid form computes a condition  *)
+(* that holds in the language semantics and ends in the block's `out` when  *)
+(* it holds (in the opposite verdict otherwise), so the outcome of a block  *)
+(* is `out` for every valid form.  A string interpolation f"..{e}.." needs  *)
+(* a `to_string` method on the type of e (language reference, "String      *)
+(* Formatting"): i32, bool and String have one, Option, records and lists  *)
+(* do not: a body interpolating such a value is a compile error, wherever  *)
+(* the block stands.                                                        *)
+ValidBodies   == {"plain", "fstr_i32", "fstr_bool", "fstr_string", "strcmp", "let_if", "match",
+                  "helper_call", "list_ops"}
+InvalidBodies == {"fstr_option", "fstr_record", "fstr_list"}
+Bodies        == ValidBodies \cup InvalidBodies
+BodyCompiles(b) == b \in ValidBodies
+
 WellFormed(p) ==
   /\ Len(p.mods) >= 1 /\ p.mods[1] = Root
+  /\ p.fnpos \in {"first", "last", "mixed"}
+  /\ \A i \in 1..Len(p.tests) : p.tests[i].body \in Bodies
   /\ \A i \in 1..Len(p.tests) : \E k \in 1..Len(p.mods) : p.mods[k] = p.tests[i].mod
   /\ \A j \in 1..Len(p.funcs) : \E k \in 1..Len(p.mods) : p.mods[k] = p.funcs[j].mod
   (* functions and child modules share one namespace (name resolution is C13's *)
@@ -111,6 +133,7 @@ Compiles == /\ pkg.broken = "none"
             /\ ~DupTest
             /\ ~DupFn
             /\ \A i \in TIdx : CallOK(i)
+            /\ \A i \in TIdx : BodyCompiles(Tests[i].body)
 
 (* what the body of test i reports: its own mark, then the called function's *)
 Marks(i) == IF Tests[i].call = NoCall THEN <<TestMark(i)>>
@@ -228,6 +251,10 @@ NotShadowed ==
   (phase = "done" /\ cmd.kind \in {"api", "test"}) =>
      \A i \in TIdx : Resolves(Tests[i].mod, Tests[i].name) => Count(log, TestMark(i)) = 1
 
+(* a compile error inside a test body rejects the package (no test runs, AtMostOnce) *)
+BodyErrorRejected ==
+  (phase \in {"compiled", "done"}) => \A i \in TIdx : BodyCompiles(Tests[i].body)
+
 (* the CLI table *)
 SomeReject == \E i \in TIdx : Tests[i].out = "reject"
 ExitTable ==
@@ -242,5 +269,5 @@ EntryOnce ==
   /\ (Ended /\ cmd.kind = "run") => entryRuns = (IF exit = "success" THEN 1 ELSE 0)
 
 Inv == TypeOK /\ ExactlyOnce /\ AtMostOnce /\ InOrder /\ VerdictIff /\ NoCallToTest
-       /\ NotShadowed /\ ExitTable /\ EntryOnce
+       /\ NotShadowed /\ BodyErrorRejected /\ ExitTable /\ EntryOnce
 =============================================================================
